@@ -356,6 +356,10 @@ def has_type(s, defined, pred, seen=None):
     return False
 
 
+def lookup_field(raw, name):
+    return [f["type"] for f in raw["fields"] if f["name"] == name][0]
+
+
 def is_decimal(s):
     return isinstance(s, dict) and s.get("logicalType") == "decimal" and s.get("type") in ("bytes", "fixed")
 
@@ -391,6 +395,7 @@ class HistoryGen:
         self.meta = []              # free-form: expected outcome etc.
         self.parsed = []            # (slot, raw schema, defined, shared: parsed against a caller-supplied dict)
         self.raws = []              # raw schema OBJECTS handed to several calls of the history
+        self.dflt = []              # (schema argument, raw, defined): schemas with defaulted fields, shared by many calls
         self.dicts = []             # (slot, {short name: raw schema})
         self.k = 0
 
@@ -566,6 +571,167 @@ class HistoryGen:
             recs = [v] + [dg.gen(raw) for _ in range(rng.randrange(0, 3))]
             self.emit({"api": "reader", "data": container(raw, recs, defined, "null"), "kw": kw},
                       coq_call("CRead", dg.trace), expect="ok", decimals=len(dg.trace))
+
+    # --- defaulted fields -----------------------------------------------------------------
+    def defaulted_schema(self):
+        """a record whose fields carry defaults of every JSON kind (non-empty arrays and maps, nested records,
+        union defaults, strings, numbers, booleans, enums, bytes); the names R/Dflt/Sub/DE are reused with
+        different defaults from schema to schema"""
+        rng = self.rng
+        v = rng.randrange(3)
+        sub = {"type": "record", "name": "Sub", "fields": [{"name": "q", "type": "long"}, {"name": "s", "type": "string"}]}
+        cands = [
+            ("da", {"type": "array", "items": "int"}, [[1, 2, 3], [7], [4, 5]][v]),
+            ("dm", {"type": "map", "values": "int"}, [{"k": 1, "j": 2}, {"z": 9}, {"a": 1}][v]),
+            ("dr", sub, {"q": v + 1, "s": "x" * (v + 1)}),
+            ("dar", {"type": "array", "items": "Sub"}, [{"q": 2, "s": "y"}, {"q": 3, "s": ""}][: v % 2 + 1]),
+            ("du", ["null", "string"], None),
+            ("dv", ["int", "null"], 5 + v),
+            ("ds", "string", ["abc", "", "d\u00e9faut"][v]),
+            ("dl", "long", [42, -1, 2 ** 40][v]),
+            ("dd", "double", [1.5, -0.25, 1e10][v]),
+            ("db", "boolean", bool(v % 2)),
+            ("de", {"type": "enum", "name": "DE", "symbols": ["A", "B", "C"]}, "ABC"[v]),
+            ("dy", "bytes", ["\u00ff\u0001", "", "xyz"][v]),
+            ("daa", {"type": "array", "items": {"type": "array", "items": "string"}}, [["x"], ["y", "z"]][: v % 2 + 1]),
+            ("dmm", {"type": "map", "values": {"type": "array", "items": "long"}}, {"p": [1, 2], "q": []}),
+        ]
+        keep = [c for c in cands if rng.random() < 0.6 or c[0] in ("da", "dm")]
+        if any(c[0] == "dar" for c in keep) and not any(c[0] == "dr" for c in keep):
+            keep = [c for c in keep if c[0] != "dar"]
+        req = [{"name": "n", "type": "long"}]
+        if rng.random() < 0.5:
+            req.append({"name": "t", "type": "string"})
+        fields = req + [{"name": n, "type": t, "default": d} for n, t, d in keep]
+        raw = {"type": "record", "name": rng.choice(["R", "Dflt", "Dflt"]), "fields": fields}
+        defined = {"Sub": sub, "DE": cands[10][1], raw["name"]: raw}
+        return raw, defined
+
+    def pick_defaulted(self):
+        """a parsed schema with defaulted fields SHARED by many calls of the history (or a new one)"""
+        rng = self.rng
+        if self.dflt and rng.random() < 0.8:
+            return rng.choice(self.dflt)
+        raw, defined = self.defaulted_schema()
+        if rng.random() < 0.85:
+            out = self.fresh_slot("P")
+            self.emit({"api": "parse_schema", "schema": raw, "$out": out}, "CParse", expect="ok")
+            self.parsed.append((out, raw, defined, False))
+            ent = ({"$slot": out}, raw, defined)
+        else:
+            ent = (raw, raw, defined)               # the same raw schema OBJECT in several calls
+        self.dflt.append(ent)
+        return ent
+
+    def partial_record(self, raw, defined, mode):
+        """record of `raw` with a random subset of the defaulted fields omitted"""
+        rng = self.rng
+        dg = DataGen(rng, mode, defined)
+        rec = {}
+        for f in raw["fields"]:
+            if "default" in f and rng.random() < 0.6:
+                continue
+            rec[f["name"]] = dg.gen(f["type"], 1)
+        return rec
+
+    def c_defaults(self):
+        rng = self.rng
+        arg, raw, defined = self.pick_defaulted()
+        k = rng.choice(["json_reader", "json_reader", "json_reader", "json_writer", "schemaless_writer", "writer", "validate",
+                        "resolve", "resolve", "resolve_container"])
+        if k == "json_reader":
+            recs = [self.partial_record(raw, defined, "read") for _ in range(rng.randrange(1, 3))]
+            text = "".join(json.dumps({n: to_json(lookup_field(raw, n), v, defined) for n, v in r.items()}) + "\n" for r in recs)
+            self.emit({"api": "json_reader", "schema": arg, "text": text}, "(CJsonRead [])", expect="ok")
+        elif k == "json_writer":
+            recs = [self.partial_record(raw, defined, "write") for _ in range(rng.randrange(1, 3))]
+            self.emit({"api": "json_writer", "schema": arg, "records": recs, "kw": {}}, "CJsonWrite", expect="ok")
+        elif k == "schemaless_writer":
+            kw = rng.choice([{}, {}, {"strict_allow_default": True}, {"strict": True}])
+            self.emit({"api": "schemaless_writer", "schema": arg, "record": self.partial_record(raw, defined, "write"), "kw": kw},
+                      "CWrite", expect="any" if kw.get("strict") else "ok")
+        elif k == "writer":
+            recs = [self.partial_record(raw, defined, "write") for _ in range(rng.randrange(1, 4))]
+            kw = rng.choice([{}, {"validator": True}, {"codec": "deflate"}])
+            self.emit({"api": "writer", "schema": arg, "records": recs, "kw": kw}, "CWrite", expect="ok")
+        elif k == "validate":
+            self.emit({"api": "validate", "schema": arg, "datum": self.partial_record(raw, defined, "write"),
+                       "kw": {"raise_errors": rng.random() < 0.5}}, "CValidate", expect="any")
+        else:
+            # schema resolution: the writer wrote only some of the fields, the reader schema supplies the defaults
+            wfields = [f for f in raw["fields"] if "default" not in f or rng.random() < 0.4]
+            wraw = {"type": "record", "name": raw["name"], "fields": [{k2: v for k2, v in f.items() if k2 != "default"} for f in wfields]}
+            dg = DataGen(rng, "read", defined)
+            if k == "resolve":
+                data = encode(wraw, dg.gen(wraw), defined)
+                self.emit({"api": "schemaless_reader", "schema": wraw, "data": data, "reader_schema": arg}, "(CRead [])", expect="ok")
+            else:
+                recs = [dg.gen(wraw) for _ in range(rng.randrange(1, 4))]
+                self.emit({"api": "reader", "data": container(wraw, recs, defined, "null"), "reader_schema": arg}, "(CRead [])", expect="ok")
+
+    # --- names that only an EARLIER call defined ---------------------------------------------
+    def c_dangling_reference(self):
+        """a schema that merely REFERS to a type name (defined by other schemas of the history, never by itself):
+        UnknownType in a fresh interpreter, whatever was read, written or parsed before"""
+        rng = self.rng
+        name = rng.choice(["Inner", "Inner", "E", "F", "D", "Sub", "DE", "E2", "Other", "R"])
+        shape = rng.choice(["array", "record", "union"])
+        if shape == "array":
+            raw = {"type": "array", "items": name}
+        elif shape == "union":
+            raw = {"type": "record", "name": "Ref", "fields": [{"name": "x", "type": ["null", name]}]}
+        else:
+            raw = {"type": "record", "name": "Ref", "fields": [{"name": "x", "type": name}, {"name": "n", "type": "long"}]}
+        data = rng.choice([b"\x02\x06\x08\x00", b"\x02\x00\x02", b"\x00\x00", bytes(rng.randrange(8) for _ in range(6))])
+        api = rng.choice(["schemaless_reader", "schemaless_reader", "reader", "schemaless_writer", "validate", "json_reader", "canonical"])
+        fail = lambda t: "(CFailing %s 0%%nat)" % t
+        if api == "schemaless_reader":
+            self.emit({"api": api, "schema": raw, "data": data}, fail("(CRead [])"), expect="raise")
+        elif api == "reader":
+            hdr = raw if shape != "array" else {"type": "record", "name": "Ref", "fields": [{"name": "x", "type": raw}]}
+            out = b"Obj\x01" + zz(2) + encode("string", "avro.schema", {}) + encode("bytes", json.dumps(hdr).encode(), {}) + \
+                encode("string", "avro.codec", {}) + encode("bytes", b"null", {}) + b"\x00" + SYNC + zz(1) + zz(len(data)) + data + SYNC
+            self.emit({"api": "reader", "data": out}, fail("(CRead [])"), expect="raise")
+        elif api == "schemaless_writer":
+            self.emit({"api": api, "schema": raw, "record": {"x": None, "n": 1} if shape != "array" else [], "kw": {}}, fail("CWrite"), expect="raise")
+        elif api == "validate":
+            self.emit({"api": api, "schema": raw, "datum": {"x": None, "n": 1} if shape != "array" else [], "kw": {"raise_errors": False}},
+                      fail("CValidate"), expect="raise")
+        elif api == "json_reader":
+            self.emit({"api": api, "schema": raw, "text": '{"x": null, "n": 1}\n' if shape != "array" else "[]\n"}, fail("(CJsonRead [])"), expect="raise")
+        else:
+            self.emit({"api": "canonical", "schema": raw}, "CCanonical", expect="any")
+
+    # --- lazy readers ----------------------------------------------------------------------------
+    def c_lazy_readers(self):
+        """reader objects are lazy: open file A (header parsed), read file B - which defines the same type names
+        differently - completely, then consume A.  A's schema uses its named type a second time BY REFERENCE."""
+        rng = self.rng
+        da, db = {}, {}
+        ia = SchemaGen(rng, allow_decimal=False).record("Inner", 2, da)
+        ib = SchemaGen(rng, allow_decimal=False).record("Inner", 2, db)
+        a = {"type": "record", "name": rng.choice(["R", "Outer"]), "fields": [
+            {"name": "first", "type": ia}, {"name": "second", "type": "Inner"},
+            {"name": "more", "type": {"type": "array", "items": "Inner"}}]}
+        b = {"type": "record", "name": rng.choice(["R", "Other"]), "fields": [{"name": "item", "type": ib}, {"name": "again", "type": "Inner"}]}
+        ga, gb = DataGen(rng, "read", da), DataGen(rng, "read", db)
+        fa = container(a, [ga.gen(a) for _ in range(rng.randrange(1, 4))], da, rng.choice(["null", "deflate"]))
+        fb = container(b, [gb.gen(b) for _ in range(rng.randrange(1, 4))], db, "null")
+        ra = self.fresh_slot("RD")
+        self.emit({"api": "reader_open", "data": fa, "$out": ra}, "(CRead [])", expect="ok")
+        k = rng.random()
+        if k < 0.6:
+            self.emit({"api": "reader", "data": fb}, "(CRead [])", expect="ok")
+        elif k < 0.8:
+            rb = self.fresh_slot("RD")
+            self.emit({"api": "reader_open", "data": fb, "$out": rb}, "(CRead [])", expect="ok")
+            self.emit({"api": "reader_consume", "reader": {"$slot": rb}}, "(CRead [])", expect="ok")
+        else:
+            dgb = DataGen(rng, "read", db)
+            self.emit({"api": "schemaless_reader", "schema": b, "data": encode(b, dgb.gen(b), db)}, "(CRead [])", expect="ok")
+        if rng.random() < 0.3:
+            self.c_canonical()
+        self.emit({"api": "reader_consume", "reader": {"$slot": ra}}, "(CRead [])", expect="ok")
 
     def c_read_truncated(self):
         """truncated input: the encoding of the first j fields only; field j is a long/string, so the
@@ -775,6 +941,7 @@ class HistoryGen:
         self.emit(call, "CLoad" if expect != "raise" else "(CFailing CLoad 0%nat)", expect=expect)
 
     KINDS = [("c_parse", 5), ("c_schemaless_writer", 3), ("c_schemaless_reader", 3), ("c_read_truncated", 1), ("c_read_union_of_records", 2),
+             ("c_defaults", 5), ("c_dangling_reference", 2), ("c_lazy_readers", 1),
              ("c_read_decimal_focus", 3), ("c_writer", 3), ("c_reader", 2), ("c_reader_truncated", 1), ("c_validate", 3),
              ("c_canonical", 1), ("c_fingerprint", 1), ("c_json_writer", 2), ("c_json_reader", 1), ("c_generate", 1), ("c_load", 2)]
 
